@@ -59,6 +59,7 @@ struct StoreInner {
     bad_block: Option<validator::Block>,
     /// every get_block call that reached this store
     reads: Mutex<Vec<u64>>,
+    read_times: Mutex<Vec<std::time::Instant>>,
     lied: Mutex<u64>,
     released: sync::watch::Sender<bool>,
 }
@@ -85,6 +86,7 @@ impl NetStore {
             target,
             bad_block,
             reads: Mutex::new(vec![]),
+            read_times: Mutex::new(vec![]),
             lied: Mutex::new(0),
             released: sync::watch::channel(false).0,
         }))
@@ -124,6 +126,7 @@ impl EngineInterface for NetStore {
     }
     async fn get_block(&self, ctx: &ctx::Ctx, n: BlockNumber) -> ctx::Result<validator::Block> {
         self.0.reads.lock().unwrap().push(n.0);
+        self.0.read_times.lock().unwrap().push(std::time::Instant::now());
         let honest = || -> ctx::Result<validator::Block> { Ok(self.0.blocks.lock().unwrap().get(&n.0).cloned().ok_or_else(|| anyhow::format_err!("not found"))?) };
         if n.0 != self.0.target {
             return honest();
@@ -778,6 +781,146 @@ fn run_prune(seed: u64, chn: &c08::Chain, canon: &[validator::Block], rt: &tokio
 }
 
 // ---------------------------------------------------------------------------------------------
+// C15: the rate configured for an RPC kind is the rate the node's server of that kind enforces
+// (gossip/runner.rs hands cfg.rpc.<kind>_rate to add_server; config.rs).
+
+pub struct RateOutcome {
+    pub viol: Vec<(String, String)>,
+    pub machinery: Vec<String>,
+    pub requests_served: u64,
+}
+
+/// A node storing 8 blocks serves get_block with rate (burst 2, refresh 400 ms) - every other RPC kind
+/// keeps a much faster rate - to a peer that fetches the whole chain as fast as its own (unlimited)
+/// client side lets it. The times at which the node's store is read (= handler starts; the manager's
+/// cache is empty) must respect the window bound b + T/r + 1, with one more for scheduling jitter
+/// between the limiter's grant and the read (this part runs in real time).
+pub fn run_rates(seed: u64) -> RateOutcome {
+    let mut out = RateOutcome { viol: vec![], machinery: vec![], requests_served: 0 };
+    let rt = tokio::runtime::Builder::new_multi_thread().worker_threads(4).enable_all().build().unwrap();
+    let (burst, refresh_ms) = (2usize, 400u64);
+    let res: Result<Vec<std::time::Instant>, String> = rt.block_on(async {
+        let chn = c08::chain(seed, 8);
+        let canon: Vec<validator::Block> = chn.blocks.iter().cloned().map(validator::Block::FinalV2).collect();
+        let rng = &mut util::rng(seed, 0x4a7e);
+        let root = ctx::test_root(&ctx::RealClock);
+        let ctx = &root;
+        let genesis = &chn.w.c.genesis;
+        let epoch = chn.w.c.epoch;
+        let fast = limiter::Rate { burst: 100, refresh: time::Duration::ZERO };
+        // the serving node
+        let n_store = NetStore::new(genesis, &canon, Lie::Honest, u64::MAX, None);
+        let (n_mgr, n_runner) = EngineManager::new(ctx, Box::new(n_store.clone()), time::Duration::seconds(1)).await.map_err(|e| format!("{e:?}"))?;
+        let mut cfg_n = make_cfg(rng, None);
+        cfg_n.rpc = RpcConfig { get_block_rate: limiter::Rate { burst, refresh: time::Duration::milliseconds(refresh_ms as i64) }, push_validator_addrs_rate: fast, push_block_store_state_rate: fast, push_tx_rate: fast, consensus_rate: fast, get_block_timeout: Some(time::Duration::seconds(60)) };
+        let n_key = cfg_n.gossip.key.public();
+        let net = nv::VGossip::new(cfg_n, n_mgr, Some(epoch));
+        let listener = TcpListener::bind("127.0.0.1:0").await.map_err(|e| e.to_string())?;
+        let addr = listener.local_addr().unwrap();
+        // the fetching peer: no limits of its own
+        let p_store = NetStore::new(genesis, &[], Lie::Honest, u64::MAX, None);
+        let (p_mgr, p_runner) = EngineManager::new(ctx, Box::new(p_store.clone()), time::Duration::seconds(1)).await.map_err(|e| format!("{e:?}"))?;
+        let mut cfg_p = make_cfg(rng, None);
+        cfg_p.rpc = RpcConfig { get_block_rate: fast, push_validator_addrs_rate: fast, push_block_store_state_rate: fast, push_tx_rate: fast, consensus_rate: fast, get_block_timeout: Some(time::Duration::seconds(60)) };
+        cfg_p.gossip.static_outbound.insert(n_key.clone(), zksync_concurrency::net::Host(addr.to_string()));
+        let p_net = nv::VGossip::new(cfg_p, p_mgr, Some(epoch));
+        let (net_ref, p_store_ref) = (&net, &p_store);
+        let r: Result<(), ctx::Error> = scope::run!(ctx, |ctx, s| async move {
+            for r in [n_runner, p_runner] {
+                s.spawn_bg(async move {
+                    let _ = r.run(ctx).await;
+                    Ok(())
+                });
+            }
+            {
+                let net = net_ref.clone();
+                let mut listener = listener;
+                s.spawn_bg(async move {
+                    while let Ok(tcp) = nv::accept_tcp(ctx, &mut listener).await {
+                        let net = net.clone();
+                        s.spawn_bg(async move {
+                            let _ = net.handle_inbound(ctx, tcp).await;
+                            Ok(())
+                        });
+                    }
+                    Ok(())
+                });
+            }
+            {
+                let p = p_net.clone();
+                s.spawn_bg(async move {
+                    p.run_block_fetcher(ctx).await;
+                    Ok(())
+                });
+            }
+            s.spawn_bg(async move {
+                let _ = p_net.dial(ctx, &n_key, addr).await;
+                Ok(())
+            });
+            // required: the peer ends up with the whole chain (the limit delays, it does not starve)
+            if !wait_for(120, || (0..8u64).all(|n| p_store_ref.stored().contains_key(&n))).await {
+                return Err(anyhow::format_err!("STARVED: the peer obtained only blocks {:?} of 0..=7 within 120 s from a node serving get_block at burst {burst} / {refresh_ms} ms", p_store_ref.stored().keys().collect::<Vec<_>>()).into());
+            }
+            Ok(())
+        })
+        .await;
+        match r {
+            Ok(()) => {}
+            Err(ctx::Error::Internal(e)) if format!("{e:#}").contains("STARVED") => return Err(format!("{e:#}")),
+            Err(e) => return Err(format!("machinery: {e:?}")),
+        }
+        let t = n_store.0.read_times.lock().unwrap().clone();
+        Ok(t)
+    });
+    drop(rt);
+    match res {
+        Err(e) if e.starts_with("machinery") => out.machinery.push(format!("rate scenario: {e}")),
+        Err(e) => out.viol.push(("rpc_starved".into(), format!("[gossip:get_block_rate] {e}"))),
+        Ok(times) => {
+            out.requests_served = times.len() as u64;
+            let t0 = times.first().copied();
+            let ms: Vec<u128> = times.iter().map(|t| t.duration_since(t0.unwrap()).as_millis()).collect();
+            'outer: for i in 0..times.len() {
+                for j in i..times.len() {
+                    let span = times[j].duration_since(times[i]).as_millis() as u64;
+                    let allowed = burst as u64 + span / refresh_ms + 2;
+                    let got = (j - i + 1) as u64;
+                    if got > allowed {
+                        out.viol.push(("rpc_rate_not_enforced".into(), format!("[gossip:get_block_rate] a node configured with get_block rate burst {burst} / refresh {refresh_ms} ms started serving {got} get_block calls of one connection within {span} ms (at most {allowed} allowed, one of them for jitter); handler starts at {ms:?} ms")));
+                        break 'outer;
+                    }
+                }
+            }
+        }
+    }
+    out
+}
+
+pub fn report_rates(rep: &mut crate::core::Report, seed: u64) -> serde_json::Value {
+    // real time: a violation of the window bound is reported only if three runs in a row show one
+    // (a changed rate shows in every run; a scheduling hiccup on a loaded machine does not repeat)
+    let mut o = run_rates(seed);
+    let mut attempts = 1;
+    while attempts < 3 && o.viol.iter().any(|v| v.0 == "rpc_rate_not_enforced") {
+        let o2 = run_rates(seed);
+        attempts += 1;
+        if !o2.viol.iter().any(|v| v.0 == "rpc_rate_not_enforced") {
+            o = o2;
+            break;
+        }
+        o = o2;
+    }
+    for (k, w) in &o.viol {
+        rep.violations.push(crate::core::Violation { key: format!("gossipnet:{k}"), what: w.clone(), replay: serde_json::json!({"harness": "gossipnet", "config": {"scenario": "rates"}, "deviations": []}) });
+    }
+    rep.machinery_errors.extend(o.machinery.iter().cloned());
+    if o.viol.is_empty() && o.machinery.is_empty() && o.requests_served < 8 {
+        rep.machinery_errors.push(format!("vacuous: the rate scenario saw only {} get_block requests", o.requests_served));
+    }
+    serde_json::json!({"get_block_requests_served": o.requests_served, "rule": "a real gossip network serving 8 blocks with get_block rate (2, 400 ms) and every other RPC kind at (100, 0) to a peer without limits, over loop-back TCP in real time: handler starts respect b + T/r + 1 (+1 for jitter); one run"})
+}
+
+// ---------------------------------------------------------------------------------------------
 // Glue for the checks.
 
 /// Runs the fetch scenarios selected by `filter` (or the one named in a replay file) and reports the
@@ -808,6 +951,8 @@ pub fn replay_fetch(rep: &mut crate::core::Report, seed: u64, rp: &serde_json::V
     let name = rp["config"]["scenario"].as_str().unwrap_or("").to_string();
     if name == "dial" {
         report_dial(rep, seed);
+    } else if name == "rates" {
+        report_rates(rep, seed);
     } else {
         report_fetch(rep, seed, classes, &|s| s.name == name);
     }
